@@ -312,6 +312,7 @@ def check_ukfp(meta, h, stats, notes):
     pp, Bs = U.check_points_linear(X, means, covs, c, N, k, stats, "ukfp", U.weight_tols(N, meta["alpha"], meta["beta"], meta["kappa"])[2])
     if pp:  # sigma-point predicates belong to C03; here they are counted only
         notes["sigma_point_predicates_failed(C03)"] = notes.get("sigma_point_predicates_failed(C03)", 0) + len(pp)
+        o["points_ok"] = False
     return probs, o, Bs
 
 
@@ -453,6 +454,7 @@ def check_ukfc(meta, h, stats, notes):
     pp, Bs = U.check_points_linear(X, means, covs, c, N, k, stats, "ukfc", U.weight_tols(N, meta["alpha"], meta["beta"], meta["kappa"])[2])
     if pp:  # sigma-point predicates belong to C03; here they are counted only
         notes["sigma_point_predicates_failed(C03)"] = notes.get("sigma_point_predicates_failed(C03)", 0) + len(pp)
+        o["points_ok"] = False
     return probs, o, Bs
 
 
@@ -624,13 +626,13 @@ def run(ctx):
             key = "predict:%s%s%s" % ("augmented" if meta["variant"] else "additive", "+skip" if meta["skip"] else "", "+exo" if meta["exo"] else "")
             try:
                 probs, o, Bs = check_ukfp(meta, h, stats, notes)
-            except (IndexError, ValueError) as e:
+            except (IndexError, ValueError, ArithmeticError) as e:
                 probs, o, Bs = [("prop", "predict-output-malformed", "UKFPrediction/KFPrediction output is not of the expected form (%s): %s" % (type(e).__name__, h[:80]))], None, None
         else:
             key = "correct:%s%s%s" % ("augmented" if meta["variant"] else "additive", "+fail%d" % meta["fail"] if meta["fail"] else "", "+online" if meta["online"] else "")
             try:
                 probs, o, Bs = check_ukfc(meta, h, stats, notes)
-            except (IndexError, ValueError) as e:
+            except (IndexError, ValueError, ArithmeticError) as e:
                 probs, o, Bs = ([] if meta["fail"] else [("prop", "correct-output-malformed", "UKFCorrection/KFCorrection output is not of the expected form (%s): %s" % (type(e).__name__, h[:80]))]), None, None
         hist[key] = hist.get(key, 0) + 1
         hist["components=%d" % meta["k"]] = hist.get("components=%d" % meta["k"], 0) + 1
@@ -655,6 +657,12 @@ def run(ctx):
             else:
                 probs += compare_ukfc(meta, o, kfd, mud, stats)
         for kind, key2, what in probs:
+            if kind == "corr" and o is not None and o.get("points_ok") is False:
+                # the sigma points of this step do not meet C03's predicates for the requested (alpha, beta, kappa): the
+                # Lean UKF model (which takes its weights from those parameters) is then not comparable; whether the
+                # step still coincides with the Kalman filter is decided by the predicate above, the rest is C03's
+                notes["model_not_comparable(sigma points fail C03 predicates)"] = notes.get("model_not_comparable(sigma points fail C03 predicates)", 0) + 1
+                continue
             (prop_bad if kind == "prop" else corr_bad).append((key2, what, ci, h))
 
     def rdata(ci, h, extra=None):
